@@ -1309,6 +1309,8 @@ class LayerBuilder(object):
       if kind in ("lattice", "linear", "kfl") and a.get("units", 1) > 1:
         layers.append(keras.layers.RepeatVector(a["units"]))
       layers.extend(captured)
+      if kind == "cdf" and a["reduction"] == "none":
+        layers.append(keras.layers.Flatten())
       model = keras.Sequential(layers)
       if not defer:
         model(tf.zeros([1, len(ins)]))
